@@ -31,6 +31,10 @@
 
 // память для блобов выделяется страницами
 #define BLOB_PAGE_SIZE 1024
+#if defined(BEE2_VERIF) && defined(BEE2_VERIF_BLOB_EXACT)
+	#undef BLOB_PAGE_SIZE
+	#define BLOB_PAGE_SIZE 1
+#endif
 
 // требуется страниц
 #define blobPageCount(size)\
